@@ -255,7 +255,91 @@ func c14Structured(r *prng.Rand) [][]byte {
 }
 
 // c14Grammar draws an input biased to what the target parses.
+// tokenText builds structured text from the string literals of ONE function of the tree
+// under test (reg.DictGroups): a random arrangement of a subset of those tokens, possibly
+// repeated, with short digit / letter runs in between. A hand-written parser that looks
+// for its separators and labels in a fixed order meets them here in every order.
+func tokenText(r *prng.Rand) []byte {
+	if len(reg.DictGroups) == 0 {
+		return nil
+	}
+	g := reg.DictGroups[r.Intn(len(reg.DictGroups))]
+	var out []byte
+	filler := func() {
+		switch r.Intn(4) {
+		case 0:
+		case 1:
+			out = append(out, digits(r, 1+r.Intn(3))...)
+		case 2:
+			out = append(out, "abcxyz5gc.nid"[r.Intn(13)])
+		default:
+			out = append(out, digits(r, 3)...)
+		}
+	}
+	n := r.Range(2, len(g)+2)
+	perm := r.Perm(len(g))
+	filler()
+	for j := 0; j < n; j++ {
+		out = append(out, g[perm[j%len(g)]]...)
+		filler()
+	}
+	return out
+}
+
+// tokenPerms enumerates arrangements of the tokens of one group: all permutations (at most
+// 720) of the whole group and of the group with one token left out, joined with the given
+// filler between tokens (digits of the given width, or nothing).
+func tokenPerms(g []string, digitsBetween int, r *prng.Rand, fn func([]byte)) {
+	emit := func(p []string) {
+		var out []byte
+		if digitsBetween > 0 {
+			out = append(out, "user"...)
+		}
+		for j, s := range p {
+			out = append(out, s...)
+			if digitsBetween > 0 && j < len(p)-1 {
+				out = append(out, digits(r, digitsBetween)...)
+			}
+		}
+		fn(out)
+	}
+	var rec func(p []string, k int, cnt *int)
+	rec = func(p []string, k int, cnt *int) {
+		if *cnt >= 720 {
+			return
+		}
+		if k == len(p) {
+			*cnt++
+			emit(p)
+			return
+		}
+		for i := k; i < len(p); i++ {
+			p[k], p[i] = p[i], p[k]
+			rec(p, k+1, cnt)
+			p[k], p[i] = p[i], p[k]
+		}
+	}
+	n := 0
+	rec(append([]string(nil), g...), 0, &n)
+	if len(g) > 2 && len(g) <= 6 {
+		for drop := range g {
+			sub := append(append([]string(nil), g[:drop]...), g[drop+1:]...)
+			m := 0
+			rec(sub, 0, &m)
+		}
+	}
+}
+
 func c14Grammar(r *prng.Rand, t *c14Target, i int) []byte {
+	if i%7 == 6 {
+		if tt := tokenText(r); tt != nil {
+			if t.text {
+				return tt
+			}
+			// byte-typed helpers: the text behind a type-of-identity / format octet
+			return append([]byte{[]byte{0x11, 0x01, 0x21, 0x31, 0x19, 0x00}[r.Intn(6)]}, tt...)
+		}
+	}
 	if t.text {
 		n := r.Range(0, 40)
 		b := make([]byte, n)
@@ -470,6 +554,37 @@ func init() {
 					}
 					c.CoverN("structured", t.name, int64(len(st)))
 				}
+			}})
+		}
+		for ti := range c14Targets {
+			t := &c14Targets[ti]
+			us = append(us, core.Unit{Name: "tokens-" + t.name, Weight: 20, Run: func(c *core.Ctx) {
+				// every arrangement of the string / character literals that occur together in one
+				// function of the tree (separators, labels, suffixes), with and without digits between
+				n := 0
+				for gi, g := range reg.DictGroups {
+					if len(g) > 6 && !c.Thorough() {
+						continue
+					}
+					for _, w := range []int{0, 3, 2} {
+						if !c.Thorough() && w == 2 && gi%2 == 0 {
+							continue
+						}
+						tokenPerms(g, w, c.R, func(txt []byte) {
+							in := txt
+							if !t.text {
+								in = append([]byte{[]byte{0x11, 0x01, 0x21, 0x19}[n%4]}, txt...)
+							}
+							n++
+							k := &core.Case{Oracle: "one", Target: t.name, B: [][]byte{in}}
+							c.Do(k)
+							if n%64 == 0 {
+								c.NonTrivial(k.Hash())
+							}
+						})
+					}
+				}
+				c.Count("token_arrangements", int64(n))
 			}})
 		}
 		us = append(us, core.Unit{Name: "concurrent-cold", Weight: 30, Fresh: true, Run: func(c *core.Ctx) {
